@@ -1,3 +1,170 @@
-/-! # C04 — property theorems (stub: nothing stated yet) -/
+import SR.Proofs.HashUniv
+/-!
+# C04 — state identity is faithful
+
+Property theorems only.  Model: `SR/Hash/Univ.lean` (the universe of Rust-shaped values `Val τ`, the
+`write_*` calls `toks h τ v` each value feeds to a hasher, `flat` = the byte stream those calls amount to).
+`h` is the inner stable hasher used by `HashableHashSet/Map` (a parameter); `P` is any predicate covering
+the inner streams that reach `h` (part of `WF`), and `InjOnP h P` says that `h` does not collide on them —
+64-bit collisions of the inner hasher are the "bad luck" the property excludes.
+`WF` otherwise only states what Rust's types guarantee (integer ranges, `len < 2^64`, no 0xff byte in UTF-8).
+
+`Equiv τ` (`≈τ`) is structural equality except: hash-table collections modulo iteration order, vector clocks
+modulo trailing zeros, `random_choices` modulo actors without pending choices (padding).
+
+The model is the code AFTER the repairs F1 (crash flags and pending choices are part of `ActorModelState`'s
+identity) and F2 (length prefix in `HashableHashSet/Map::hash`); the full-strength theorems hold.
+-/
 namespace SR.C04
+open SR.Hash
+
+variable (h : List Tok → UInt64) (P : List Tok → Prop)
+
+/-- Equal values feed equal streams — token by token, hence byte by byte — whatever the insertion order,
+capacity, hasher seed or padding they were built with. -/
+theorem C04_resp (τ : Ty) (a b : Val τ) (e : Equiv τ a b) : toks h τ a = toks h τ b :=
+  toks_resp h τ a b e
+
+/-- Every stream is self-delimiting on BYTES: no value's stream is a proper prefix of another's
+(of the same type), so concatenations (tuples, structs, vectors of collections) can be split uniquely. -/
+theorem C04_selfDelim (hinj : InjOnP h P) (τ : Ty) (a b : Val τ) (wa : WF h P τ a) (wb : WF h P τ b)
+    (x y : List Nat) (e : flat (toks h τ a) ++ x = flat (toks h τ b) ++ y) :
+    flat (toks h τ a) = flat (toks h τ b) ∧ x = y := by
+  obtain ⟨r, exy⟩ := core_all h P hinj τ a b wa wb x y e
+  exact ⟨by rw [toks_resp h τ a b r], exy⟩
+
+/-- Values that differ (modulo `≈`) feed different BYTE streams: equal flat streams ⇒ `≈`-equal. -/
+theorem C04_inj (hinj : InjOnP h P) (τ : Ty) (a b : Val τ) (wa : WF h P τ a) (wb : WF h P τ b)
+    (e : flat (toks h τ a) = flat (toks h τ b)) : Equiv τ a b :=
+  (core_all h P hinj τ a b wa wb [] []
+    (by show flat (toks h τ a) ++ [] = flat (toks h τ b) ++ []; rw [e])).1
+
+/-- the two directions together -/
+theorem C04_stream_iff (hinj : InjOnP h P) (τ : Ty) (a b : Val τ) (wa : WF h P τ a) (wb : WF h P τ b) :
+    flat (toks h τ a) = flat (toks h τ b) ↔ Equiv τ a b :=
+  ⟨C04_inj h P hinj τ a b wa wb, fun e => by rw [C04_resp h τ a b e]⟩
+
+/-! ## the cases named in the statement -/
+
+/-- Which of two ADJACENT collections holds an element is visible: `({a},{})` vs `({},{a})` (F2). -/
+theorem C04_adjacent_sets (hinj : InjOnP h P) (t : Ty) (a b : Val (.tup (.hset t) (.hset t)))
+    (wa : WF h P _ a) (wb : WF h P _ b) (e : flat (toks h _ a) = flat (toks h _ b)) :
+    PermBy (Equiv t) a.1 b.1 ∧ PermBy (Equiv t) a.2 b.2 :=
+  C04_inj h P hinj _ a b wa wb e
+
+/-- the same for maps side by side -/
+theorem C04_adjacent_maps (hinj : InjOnP h P) (k v : Ty) (a b : Val (.tup (.hmap k v) (.hmap k v)))
+    (wa : WF h P _ a) (wb : WF h P _ b) (e : flat (toks h _ a) = flat (toks h _ b)) :
+    Equiv (.hmap k v) a.1 b.1 ∧ Equiv (.hmap k v) a.2 b.2 :=
+  C04_inj h P hinj _ a b wa wb e
+
+/-- `timers_set: Vec<Timers<T>>`: which ACTOR a timer is set on is visible (`[{t},{}]` vs `[{},{t}]`). -/
+theorem C04_timers_vec (hinj : InjOnP h P) (t : Ty) (a b : Val (.vec (Ty.timers t)))
+    (wa : WF h P _ a) (wb : WF h P _ b) (e : flat (toks h _ a) = flat (toks h _ b)) :
+    All2 (PermBy (Equiv t)) a b :=
+  C04_inj h P hinj _ a b wa wb e
+
+/-- `Network<Msg>` (derived `Hash` over the three representations): the kind, every in-flight envelope
+(with multiplicity / queue position) and the last delivered message are visible. -/
+theorem C04_network (hinj : InjOnP h P) (m : Ty) (a b : Val (Ty.net m))
+    (wa : WF h P _ a) (wb : WF h P _ b) (e : flat (toks h _ a) = flat (toks h _ b)) :
+    Equiv (Ty.net m) a b :=
+  C04_inj h P hinj _ a b wa wb e
+
+/-- networks of different kinds never collide, whatever they contain -/
+theorem C04_network_kind (hinj : InjOnP h P) (m : Ty)
+    (ud : Val (.tup (.hset (Ty.env m)) (Ty.opt (Ty.env m)))) (un : Val (.hmap (Ty.env m) .usize))
+    (a b : Val (Ty.net m)) (ha : a = .inl ud) (hb : b = .inr (.inl un))
+    (wa : WF h P _ a) (wb : WF h P _ b) : flat (toks h _ a) ≠ flat (toks h _ b) := by
+  intro e
+  have := C04_inj h P hinj _ a b wa wb e
+  subst ha hb
+  simp only [Equiv] at this
+
+/-- The pending random choices (tail of `ActorModelState::hash`, F1): which actor has which choices is
+visible; actors without pending choices (padding of the vector) are not. -/
+theorem C04_random_choices (hinj : InjOnP h P) (r : Ty) (a b : Val (.choices r))
+    (wa : WF h P _ a) (wb : WF h P _ b) (e : flat (toks h _ a) = flat (toks h _ b)) :
+    All2 (fun p q => p.1 = q.1 ∧ PermBy (fun e f => e.1 = f.1 ∧ All2 (Equiv r) e.2 f.2) p.2 q.2)
+      (pendingFrom 0 a) (pendingFrom 0 b) :=
+  C04_inj h P hinj _ a b wa wb e
+
+/-- `VectorClock`: same stream exactly when equal up to trailing zeros (shared with C20). -/
+theorem C04_vclock (hinj : InjOnP h P) (a b : Val .vclock) (wa : WF h P _ a) (wb : WF h P _ b) :
+    flat (toks h .vclock a) = flat (toks h .vclock b) ↔ ∀ i, VClock.get0 a i = VClock.get0 b i :=
+  C04_stream_iff h P hinj .vclock a b wa wb
+
+/-- `DenseNatMap<K,V>`: the values in key order. -/
+theorem C04_densenatmap (hinj : InjOnP h P) (v : Ty) (a b : Val (Ty.dnm v))
+    (wa : WF h P _ a) (wb : WF h P _ b) (e : flat (toks h _ a) = flat (toks h _ b)) :
+    All2 (Equiv v) a b :=
+  C04_inj h P hinj _ a b wa wb e
+
+/-- Both consistency testers (derived `Hash` over the reference object, the per-thread histories, the
+in-flight operations and the validity flag), for arbitrary thread-id / object / op / ret types. -/
+theorem C04_testers (hinj : InjOnP h P) (tid obj op ret : Ty) :
+    (∀ (a b : Val (Ty.linTester tid obj op ret)), WF h P _ a → WF h P _ b →
+      flat (toks h _ a) = flat (toks h _ b) → Equiv _ a b) ∧
+    (∀ (a b : Val (Ty.scTester tid obj op ret)), WF h P _ a → WF h P _ b →
+      flat (toks h _ a) = flat (toks h _ b) → Equiv _ a b) :=
+  ⟨fun a b wa wb e => C04_inj h P hinj _ a b wa wb e, fun a b wa wb e => C04_inj h P hinj _ a b wa wb e⟩
+
+/-- `ActorModelState`: two states feeding the same byte stream agree on EVERY component: actor states,
+history, timers (per actor), network, crash flags and pending random choices (per actor). -/
+theorem C04_state (hinj : InjOnP h P) (s m t r hist : Ty) (st st' : Val (Ty.state s m t r hist))
+    (w : WF h P _ st) (w' : WF h P _ st') (e : flat (toks h _ st) = flat (toks h _ st')) :
+    Equiv (.vec (.arc s)) st.1 st'.1 ∧                                   -- actor_states
+    Equiv hist st.2.1 st'.2.1 ∧                                          -- history
+    Equiv (.vec (Ty.timers t)) st.2.2.1 st'.2.2.1 ∧                      -- timers_set
+    Equiv (Ty.net m) st.2.2.2.1 st'.2.2.2.1 ∧                            -- network
+    Equiv (.vec .bool) st.2.2.2.2.1 st'.2.2.2.2.1 ∧                      -- crashed
+    Equiv (.choices r) st.2.2.2.2.2 st'.2.2.2.2.2 :=                     -- random_choices (pending ones)
+  C04_inj h P hinj _ st st' w w' e
+
+/-! ## the hypotheses are satisfiable on a concrete, non-trivial instance
+
+`h0` = sum of the bytes; it is injective on the three streams `[u8 1]`, `[u8 2]`, `[u8 3]`. -/
+
+def h0 (s : List Tok) : UInt64 := UInt64.ofNat ((flat s).foldl (· + ·) 0)
+def P0 (s : List Tok) : Prop := s = [.u8 1] ∨ s = [.u8 2] ∨ s = [.u8 3]
+
+example : InjOnP h0 P0 := by
+  intro s t hs ht e
+  rcases hs with rfl | rfl | rfl <;> rcases ht with rfl | rfl | rfl <;> first | rfl | (revert e; decide)
+
+/-- `({1,2},{3})`: well-formed; its stream shows both length prefixes -/
+example : WF h0 P0 (.tup (.hset .u8) (.hset .u8)) (([1, 2], [3]) : List Nat × List Nat) := by
+  show (LenOk ([1, 2] : List Nat) ∧ AllMem (fun (e : Nat) => NatLt 8 e ∧ P0 [Tok.u8 e]) ([1, 2] : List Nat)) ∧
+    (LenOk ([3] : List Nat) ∧ AllMem (fun (e : Nat) => NatLt 8 e ∧ P0 [Tok.u8 e]) ([3] : List Nat))
+  simp [LenOk, AllMem, NatLt, P0]
+
+theorem C04_example_stream : toks h0 (.tup (.hset .u8) (.hset .u8)) (([1, 2], [3]) : List Nat × List Nat) =
+    [.usize 2, .u64 1, .u64 2, .usize 1, .u64 3] := by
+  show setToks h0 (([1, 2] : List Nat).map fun (n : Nat) => [Tok.u8 n]) ++ setToks h0 (([3] : List Nat).map fun (n : Nat) => [Tok.u8 n]) = _
+  have e1 : (h0 [Tok.u8 1]).toNat = 1 := by decide
+  have e2 : (h0 [Tok.u8 2]).toNat = 2 := by decide
+  have e3 : (h0 [Tok.u8 3]).toNat = 3 := by decide
+  have s1 : [1, 2].mergeSort leB = [1, 2] := List.mergeSort_of_pairwise (by simp [leB])
+  have s2 : [3].mergeSort leB = [3] := List.mergeSort_of_pairwise (by simp)
+  simp only [setToks, List.map, e1, e2, e3, s1, s2, List.length]
+  rfl
+
+/-- `({1,2},{3})` and `({1},{2,3})` differ in which of the adjacent sets holds `2`: their BYTE streams differ
+(the F2 collision, gone) -/
+example : flat (toks h0 (.tup (.hset .u8) (.hset .u8)) (([1, 2], [3]) : List Nat × List Nat)) ≠
+    flat (toks h0 (.tup (.hset .u8) (.hset .u8)) (([1], [2, 3]) : List Nat × List Nat)) := by
+  have t2 : toks h0 (.tup (.hset .u8) (.hset .u8)) (([1], [2, 3]) : List Nat × List Nat) =
+      [.usize 1, .u64 1, .usize 2, .u64 2, .u64 3] := by
+    show setToks h0 (([1] : List Nat).map fun (n : Nat) => [Tok.u8 n]) ++
+      setToks h0 (([2, 3] : List Nat).map fun (n : Nat) => [Tok.u8 n]) = _
+    have e1 : (h0 [Tok.u8 1]).toNat = 1 := by decide
+    have e2 : (h0 [Tok.u8 2]).toNat = 2 := by decide
+    have e3 : (h0 [Tok.u8 3]).toNat = 3 := by decide
+    have s1 : [2, 3].mergeSort leB = [2, 3] := List.mergeSort_of_pairwise (by simp [leB])
+    have s2 : [1].mergeSort leB = [1] := List.mergeSort_of_pairwise (by simp)
+    simp only [setToks, List.map, e1, e2, e3, s1, s2, List.length]
+    rfl
+  rw [C04_example_stream, t2]
+  decide
+
 end SR.C04
